@@ -9,9 +9,9 @@ def sh(c):
 hook_commits = [l.split()[0] for l in sh("git -C /repo log --format='%h %s'").splitlines() if 'verif hook' in l]
 
 P = {
- 'C01': ('proptest histories + exhaustive BFS state sweep of the real mapper; oracle: fold of emitted events is empty whenever the physical set is empty', '5/C01',
+ 'C01': ('proptest histories (random, typing, marathon, giant-layout and rollover stages) + exhaustive BFS state sweep of the real mapper; libFuzzer campaign in the thorough tier; oracle: fold of emitted events is empty whenever the physical set is empty', '5/C01',
          'Generated (layout, history) cases incl. ill-formed events and release_all, plus breadth-first sweeps of the real step function (snapshot/restore hook) that decide every history with <=4 keys held for each swept layout; built-in, README and unit-test layouts in every run. A sample across layouts, exhaustive per swept layout.'),
- 'C02': ('proptest histories + BFS state sweep; oracle: justification predicate over (layout, physical set, output set) at every prefix, in-effect model for non-absorbing layouts', '5/C02', 'Every prefix of every generated/swept history is checked against the four clauses of the property; the in-effect clause uses a 10-line model independent of the mapper.'),
+ 'C02': ('proptest histories (random, typing, marathon, giant-layout and rollover stages) + BFS state sweep; libFuzzer campaign in the thorough tier; oracle: justification predicate over (layout, physical set, output set) at every prefix, in-effect model for non-absorbing layouts, fired-now clause with the widest reading in absorbing layouts', '5/C02', 'Every prefix of every generated/swept history is checked against the clauses of the property; the in-effect clause uses a 10-line model independent of the mapper.'),
  'C03': ('proptest histories + BFS state sweep on layouts with distinguished output keys; oracle: last-listed-satisfied model computed from layout + physical set', '5/C03', 'Which mapping fired is observed through output keys that occur nowhere else; checked at every acted press from every reached state.'),
  'C04': ('proptest histories + BFS state sweep; oracle: modifier set folded to the instant of each distinguished key press', '5/C04', 'Event order inside one step is folded one event at a time; instants are presses of distinguished final output keys.'),
  'C05': ('proptest histories with foreign keys + BFS state sweep; oracle: projection of the output stream on foreign keys and on protected outputs of in-effect mappings', '5/C05', 'Non-interference clauses (i)-(iii) of the property as stream predicates; empty layout = identity.'),
@@ -26,10 +26,10 @@ P = {
  'C14': ('proptest JSON trees over a vocabulary, structure-aware mutants of valid layouts, byte damage; libFuzzer target in the thorough tier; oracle: no panic in load / install / drive', '5/C14', 'Every input goes through load_layout_from_file; accepted layouts are installed in the mapper and driven with a generated history under catch_unwind.'),
  'C15': ('round-trip property (proptest) + exhaustive sweep over all key codes; oracle: saved-then-loaded layout equals the original mapping list', '5/C15', 'Save path (serde) and load path (shorthand parser + converter) are connected exactly as the systemd service connects them.'),
  'C16': ('proptest device-list texts from archetypes with dropped fields (context-independence metamorphic relation, two-extractor differential, ground truth by construction) + end-to-end runs of the real listing/filter code and the real binary on a fabricated /proc,/sys,/dev in a private mount namespace; reference glob matcher', '5/C16', 'Both extractors, the virtual-device filter, the exclude filter and both device-selection routes are exercised on generated device lists; a sample of cases goes through the unmodified binary.'),
- 'C17': ('exhaustive enumeration of all single scalar values and all pairs/triples over the syntax alphabet + proptest strings and lists; oracle: independent decoder of systemd ExecStart= rules', '5/C17', 'The unit text produced by the real code is decoded by an independent implementation of systemd\'s documented rules and compared byte for byte.'),
- 'C18': ('exhaustive enumeration over key codes + proptest batches and foreign-record streams; oracle: libc::input_event layout, kernel header key codes, writer->reader round trip over a pipe', '5/C18', 'The writer runs on a memfd, the reader on a non-blocking pipe; no uinput/evdev device is needed.'),
- 'C19': ('proptest histories + BFS state sweep; oracle: press only when up / release only when down over the concatenated output stream', '5/C19', 'Same generators as C01; the fold runs over every step and every release_all batch.'),
- 'C20': ('fault injection: for each generated scripted run, the k-th driver call fails for every k (all up to 64 calls, a generated subset beyond); oracle: returned error carries the injected marker, no call after the fault, writes are a prefix of the fault-free run', '5/C20', 'One fault per run, enumerated over every driver call of the run.'),
+ 'C17': ('exhaustive enumeration of all single scalar values and all pairs/triples over the syntax alphabet + proptest strings and lists (long lists, tokens harvested from the source text); oracle: independent decoder of systemd ExecStart= rules', '5/C17', 'The unit text produced by the real code is decoded by an independent implementation of systemd\'s documented rules and compared byte for byte.'),
+ 'C18': ('exhaustive enumeration over key codes and over foreign (type, code) pairs + proptest batches and foreign-record streams; oracle: libc::input_event layout, kernel header key codes, writer->reader round trip over a pipe', '5/C18', 'The writer runs on a memfd, the reader on a non-blocking pipe; no uinput/evdev device is needed.'),
+ 'C19': ('proptest histories (random, typing, marathon, giant-layout and rollover stages) + BFS state sweep; libFuzzer campaign in the thorough tier; oracle: press only when up / release only when down over the concatenated output stream', '5/C19', 'Same generators as C01; the fold runs over every step and every release_all batch.'),
+ 'C20': ('fault injection: for each generated scripted run, the k-th driver call fails for every k (all up to 256 calls, a generated subset beyond) + interrupt-storm slice; oracle: returned error carries the injected marker, no write after the fault, writes are a prefix of the fault-free run', '5/C20', 'One fault per run, enumerated over every driver call of the run.'),
 }
 
 LEVEL = {k: 'exploration' for k in P}
